@@ -71,6 +71,7 @@ fn c12_switch_p0() {
 // @kind core
 // @timeout 900
 // @mem 16
+// @rss 15
 // @flags c-ffi
 // @functions TempFileBuffer::{new, switch, is_real_file_ready, await_real_file}, TempFileBufferWriter::{write (update), flush, drop}; instantiation R = Dest(NonZeroU32)
 // @bounds producer: 2 writes (1 byte, then 2 bytes; symbolic contents), then drop; consumer: `switch` lands at call-level position 1 of 4 (between the two writes), then await_real_file; in-memory staging. The 4 positions are 4 harness instances: with a symbolic position the writer's BufferState enum merges into a symbolic variant and the formula exceeded 24 GB (measured)
